@@ -307,12 +307,12 @@ pub fn family(name: &str, tier: Tier) -> Vec<Case> {
             s.client.stream_window = Some(1000);
             s.server_mode.read_pause_us = 2000;
             s.tasks = vec![echo_task(6000, 0)];
-            add(s, 1);
+            add(s, if quick { 1 } else { 2 });
             let mut s = Scenario::base("live/conn-credit");
             s.server.conn_window = Some(1500);
             s.client.conn_window = Some(1500);
             s.tasks = vec![echo_task(4000, 0), echo_task(4000, 1000)];
-            add(s, 1);
+            add(s, if quick { 1 } else { 2 });
             // a reader that sleeps and then drains in one burst: a single MAX_DATA / MAX_STREAM_DATA is all
             // that can unblock the sender, so its loss must be repaired by retransmission
             let mut s = Scenario::base("live/conn-credit-burst-reader");
@@ -320,30 +320,30 @@ pub fn family(name: &str, tier: Tier) -> Vec<Case> {
             s.server_mode.read_delay_ms = 400;
             s.server_mode.echo = false;
             s.tasks = vec![vec![Op::OpenBidi, Op::Write(5000, 0), Op::Finish, Op::AwaitReader]];
-            add(s, 1);
+            add(s, if quick { 1 } else { 2 });
             let mut s = Scenario::base("live/stream-credit-burst-reader");
             s.server.stream_window = Some(2000);
             s.server_mode.read_delay_ms = 400;
             s.server_mode.echo = false;
             s.tasks = vec![uni_task(5000, 0), vec![Op::OpenBidi, Op::Write(5000, 0), Op::Finish, Op::AwaitReader]];
-            add(s, 1);
+            add(s, if quick { 1 } else { 2 });
             let mut s = Scenario::base("live/stream-count-credit");
             s.server.max_bidi_remote = Some(1);
             s.client.max_bidi_local = Some(1);
             s.tasks = vec![[echo_task(500, 0), echo_task(500, 0), echo_task(500, 0)].concat()];
-            add(s, 1);
+            add(s, if quick { 1 } else { 2 });
             let mut s = Scenario::base("live/stream-count-credit-peer-only");
             s.server.max_bidi_remote = Some(1);
             s.tasks = vec![[echo_task(500, 0), echo_task(500, 0), echo_task(500, 0)].concat()];
-            add(s, 1);
+            add(s, if quick { 1 } else { 2 });
             let mut s = Scenario::base("live/stream-count-credit-local-only");
             s.client.max_bidi_local = Some(1);
             s.tasks = vec![[echo_task(500, 0), echo_task(500, 0), echo_task(500, 0)].concat()];
-            add(s, 1);
+            add(s, if quick { 1 } else { 2 });
             let mut s = Scenario::base("live/tls-amplification");
             s.tls = Tls::S2n;
             s.tasks = vec![echo_task(3000, 0)];
-            add(s, 1);
+            add(s, if quick { 1 } else { 2 });
             // the server's first flight exceeds 3 x the client's first datagram: it stops at the
             // anti-amplification limit and only the client's own probes (RFC 9002 6.2.2.1) release it
             for (name, cert) in [("live/tls-amplification-cert-medium", Cert::Medium), ("live/tls-amplification-cert-large", Cert::Large)] {
@@ -352,12 +352,12 @@ pub fn family(name: &str, tier: Tier) -> Vec<Case> {
                 s.cert = cert;
                 s.expect_amp_block = true;
                 s.tasks = vec![echo_task(3000, 0)];
-                add(s, 1);
+                add(s, if quick { 1 } else { 2 });
             }
             let mut s = Scenario::base("live/null-retry");
             s.retry = Retry::Det;
             s.tasks = vec![echo_task(3000, 0)];
-            add(s, 1);
+            add(s, if quick { 1 } else { 2 });
             let mut s = Scenario::base("live/tls-retry-cert-medium");
             s.tls = Tls::S2n;
             s.cert = Cert::Medium;
@@ -438,7 +438,7 @@ pub fn family(name: &str, tier: Tier) -> Vec<Case> {
                     vec![Op::OpenBidi, Op::Write(100, 0), Op::Sleep(60), Op::Reset(5), Op::Sleep(200)],
                     vec![Op::OpenUni, Op::Write(100, 0), Op::Reset(5), Op::Sleep(200)],
                 ];
-                out.push(Case { scn: s, menu: menu_null(), k: 1, extra: vec![], expect: Expect::Nothing, injects: vec![], differential: false, first_index: 0, adv: None, last_index: u32::MAX });
+                out.push(Case { scn: s, menu: menu_null(), k: if quick { 1 } else { 2 }, extra: vec![], expect: Expect::Nothing, injects: vec![], differential: false, first_index: 0, adv: None, last_index: u32::MAX });
             }
             // stream data windows that differ per kind of stream and per role (initial_max_stream_data_
             // bidi_local / bidi_remote / uni all pairwise different, on both sides): a sender must take the
@@ -508,7 +508,7 @@ pub fn family(name: &str, tier: Tier) -> Vec<Case> {
                     if quick && idx % 2 == 0 && act != "reset" {
                         continue;
                     }
-                    out.push(Case { scn: s, menu: menu_null(), k: 1, extra: vec![], expect: Expect::Nothing, injects: vec![], differential: false, first_index: 0, adv: None, last_index: u32::MAX });
+                    out.push(Case { scn: s, menu: menu_null(), k: if quick { 1 } else { 2 }, extra: vec![], expect: Expect::Nothing, injects: vec![], differential: false, first_index: 0, adv: None, last_index: u32::MAX });
                 }
             }
             // peer-driven: server sends STOP_SENDING / resets its direction / closes
@@ -520,7 +520,7 @@ pub fn family(name: &str, tier: Tier) -> Vec<Case> {
                 let mut s = Scenario::base(name);
                 f(&mut s.server_mode);
                 s.tasks = base_tasks();
-                out.push(Case { scn: s, menu: menu_null(), k: 1, extra: vec![], expect: Expect::Nothing, injects: vec![], differential: false, first_index: 0, adv: None, last_index: u32::MAX });
+                out.push(Case { scn: s, menu: menu_null(), k: if quick { 1 } else { 2 }, extra: vec![], expect: Expect::Nothing, injects: vec![], differential: false, first_index: 0, adv: None, last_index: u32::MAX });
             }
         }
         // ------------------------------------------------------------------ HS
